@@ -79,13 +79,18 @@ def compress(
     taxa, sequences = zip(*alignment)
     if alignment.data_type.size > 1:
         step = alignment.data_type.size
-        sequences = [zip(*[s[i::step] for i in range(step)]) for s in sequences]
+        sequences = [
+            list(zip(*[s[i::step] for i in range(step)])) for s in sequences
+        ]
 
     if indices is not None:
-        sequences_new = [""] * len(sequences)
+        sequences_new = [[] for _ in sequences]
         for index in indices:
             for idx, sequence in enumerate(sequences):
-                sequences_new[idx] += sequence[index]
+                if isinstance(index, slice):
+                    sequences_new[idx].extend(sequence[index])
+                else:
+                    sequences_new[idx].append(sequence[index])
         count_dict = Counter(list(zip(*sequences_new)))
     else:
         count_dict = Counter(list(zip(*sequences)))
